@@ -207,6 +207,14 @@ example :
     (run env RState.init [.beginDoc, .version 0, .list, .refLocal [97], .marker [97], .posInt 1] 0).2.2.forward = [] := by
   decide +kernel
 
+/-- while a stream is being accepted, every waiting reference waits with one of the two masks the rules use -
+    never with 0, which the code would read as "not waiting" and so forget the reference's constraint -/
+theorem waiting_masks_are_any_or_keyable (env : Env) (evs : List Ev) (h : (run env RState.init evs 0).2.1 = none) :
+    ∀ p ∈ (run env RState.init evs 0).2.2.forward, (p.2 = Mask.any.bits ∨ p.2 = Mask.keyable.bits) ∧ p.2 ≠ 0 :=
+  fun p hp =>
+    have hw := (run_t env evs RState.init 0 h (by intro q hq; simp [RState.init] at hq)).1 p hp
+    ⟨hw, maskOK_ne hw⟩
+
 /-- the type of every referenced object fits the position of the reference, in every accepted document -/
 theorem references_of_an_accepted_document_fit_their_position (env : Env) (htbl : env.tbl = Model.ruleTable)
     (a b : List Ev) (id : Bytes) (m : DT)
